@@ -3,6 +3,7 @@ package main
 import (
 	"fmt"
 	"go/ast"
+	"strings"
 )
 
 const (
@@ -134,6 +135,107 @@ func genGroups() *leanFile {
 	facts["Groups.streamDeletedInGoroutine"] = async && !direct
 	l.def("streamDeletedInGoroutine", "Bool", boolLit(async && !direct),
 		"metadata.go calls group.StreamDeleted from a goroutine (m.startGoroutine(func() { … })) rather than synchronously")
+
+	// ---- the load counter (consumer.assignedCount, key of the least-loaded heaps) and what it counts
+	// (consumer.assignments): EVERY statement of groups.go that writes one of the two, by function.
+	// The model keeps the counter as a separate field (Cons.count) and Proofs.Groups.cinv_* prove
+	// `count = number of partitions held` for the writers as they are paired HERE; a write outside
+	// the two consumer methods (e.g. `delete(subscriber.assignments, stream)` in StreamDeleted)
+	// changes this table and thereby breaks Props.C12.
+	var writes []string
+	isLoadField := func(e ast.Expr) bool {
+		for {
+			switch v := e.(type) {
+			case *ast.IndexExpr:
+				e = v.X
+				continue
+			case *ast.SelectorExpr:
+				return v.Sel.Name == "assignments" || v.Sel.Name == "assignedCount"
+			}
+			return false
+		}
+	}
+	for _, d := range f.f.Decls {
+		fd, ok := d.(*ast.FuncDecl)
+		if !ok || fd.Body == nil {
+			continue
+		}
+		name := fd.Name.Name
+		if fd.Recv != nil && len(fd.Recv.List) > 0 {
+			t := fd.Recv.List[0].Type
+			if st, ok := t.(*ast.StarExpr); ok {
+				t = st.X
+			}
+			if id, ok := t.(*ast.Ident); ok {
+				name = id.Name + "." + name
+			}
+		}
+		ast.Inspect(fd.Body, func(n ast.Node) bool {
+			switch v := n.(type) {
+			case *ast.AssignStmt:
+				for _, lhs := range v.Lhs {
+					if isLoadField(lhs) {
+						writes = append(writes, fmt.Sprintf("(%q, %q)", name, nows(f.src(v))))
+						break
+					}
+				}
+			case *ast.IncDecStmt:
+				if isLoadField(v.X) {
+					writes = append(writes, fmt.Sprintf("(%q, %q)", name, nows(f.src(v))))
+				}
+			case *ast.CallExpr:
+				if id, ok := v.Fun.(*ast.Ident); ok && (id.Name == "delete" || id.Name == "clear") && len(v.Args) >= 1 && isLoadField(v.Args[0]) {
+					writes = append(writes, fmt.Sprintf("(%q, %q)", name, nows(f.src(v))))
+				}
+			case *ast.KeyValueExpr:
+				if id, ok := v.Key.(*ast.Ident); ok && (id.Name == "assignments" || id.Name == "assignedCount") {
+					writes = append(writes, fmt.Sprintf("(%q, %q)", name, nows(f.src(v))))
+				}
+			}
+			return true
+		})
+	}
+	if len(writes) == 0 {
+		lost = append(lost, groupsGo+": writers of consumer.assignments / consumer.assignedCount")
+	}
+	facts["Groups.loadWrites"] = writes
+	l.def("loadWrites", "List (String × String)", "["+strings.Join(writes, ", ")+"]",
+		"every statement of groups.go that writes consumer.assignments or consumer.assignedCount, by function")
+
+	// StreamDeleted, for every subscriber of the deleted stream: `subscriber.removeStreamAssignments(stream)`
+	// (assignments dropped AND counter lowered) or a bare `delete(subscriber.assignments, stream)`?
+	lowers, bare := false, false
+	if fd := f.fn("consumerGroup.StreamDeleted"); fd != nil && fd.Body != nil {
+		ast.Inspect(fd.Body, func(n ast.Node) bool {
+			rs, ok := n.(*ast.RangeStmt)
+			if !ok || nows(f.src(rs.X)) != "*subscribers" {
+				return true
+			}
+			val := ""
+			if rs.Value != nil {
+				val = nows(f.src(rs.Value))
+			}
+			for _, st := range rs.Body.List {
+				es, ok := st.(*ast.ExprStmt)
+				if !ok {
+					continue
+				}
+				switch nows(f.src(es.X)) {
+				case val + ".removeStreamAssignments(stream)":
+					lowers = true
+				case "delete(" + val + ".assignments,stream)":
+					bare = true
+				}
+			}
+			return true
+		})
+	}
+	if lowers == bare {
+		lost = append(lost, groupsGo+":consumerGroup.StreamDeleted (subscriber.removeStreamAssignments(stream) in the loop over the deleted stream's subscribers)")
+	}
+	facts["Groups.deletedLowersCount"] = lowers && !bare
+	l.def("deletedLowersCount", "Bool", boolLit(lowers && !bare),
+		"StreamDeleted drops a subscriber's assignments of the deleted stream through subscriber.removeStreamAssignments(stream), which also lowers assignedCount")
 	return l
 }
 
